@@ -26,7 +26,7 @@ ASSUMPTIONS = [
     "exhaustive only inside the edit grammar: this is the property where the bound says least about the unbounded claim",
 ]
 
-HOSTILE = ['"', ";", "=", ",", "%", "\\", "[", "]", ":", "@", " ", "\t", "\x80", "\xff", "a", "1", "-", "/", "*", "\xe2\x80\x94"]
+HOSTILE = ['"', ";", "=", ",", "%", "\\", "[", "]", ":", "@", " ", "\t", "\x80", "\xff", "a", "1", "-", "/", "*", "\xe2\x80\x94", "\0", "\x7f"]
 NUMS = ["", "-1", "0" * 5000 + "1", "9" * 5000, "9" * 20, "99999", "4294967296", "0000", "١", "1e5", "0x10", " 7", "+3",
         "10\xb9", "\xb2", "1\xbc", "\u0661\u0662", "1_0", "１２"]  # characters str.isdigit()/isdecimal() accept but int() may not (superscripts, fractions, other scripts' digits)
 LONG = "x" * 3000
@@ -62,6 +62,9 @@ def edits(s, tier, kind="header"):
     for m in re.finditer(r"\d+", s):
         for n in NUMS:
             yield s[:m.start()] + n + s[m.end():]
+    for m in re.finditer(r"\bq=([^;,]*)", s):
+        for v in ("-inf", "-Infinity", "inf", "nan", "-1e999", "1e999", "-1e306", "1e-400", "-" + "9" * 400, "9" * 400, "-0", "1.", ".", "0x1p3", "١", "1_0", ""):
+            yield s[:m.start(1)] + v + s[m.end(1):]
     for m in re.finditer(r"(charset|boundary)=([^;]*)", s):
         for v in ("nonsense", "", LONG, '"', "utf-16", "utf-8-sig", "idna", "undefined", "unicode_escape", "base64", "zlib", "punycode", "utf\0-8", "\0", "utf-8\0",
                   "\xe2\x80\x94x", "\xc5\x91", "b\xe4\xb8\xadd", "\xf0\x9f\x98\x80", "\xc3\xa9", "\xe9"):  # header bytes that are well-formed UTF-8 (em dash, o-double-acute, CJK, emoji, e-acute) and one that is not
@@ -194,7 +197,7 @@ def probe_headers(r, name, value, nontrivial=True):
 PATH_BASES = ["/a/b", "/files/é.txt", "/x%20y", "/", "/1/2021-03-07/90478484-0988-45fc-91fe-757d90136892/1.5"]
 PATH_HOSTILE = ["\0", "\r", "\n", "%", "\\", "..", "//", "?", "#", ":", "@", "[", "]", " ", "é", "\udcff", "\x80", "a" * 300, "*", "+"]
 QUERY_BASES = [b"a=1&b=%E4%B8%AD&c=+x", b"k", b""]
-QUERY_HOSTILE = [b"%", b"%z", b"%ff", b"\xff", b"&", b"=", b";", b"[", b"]", b"+", b"#", b"%00", b"\xe4\xb8"]
+QUERY_HOSTILE = [b"%", b"%z", b"%ff", b"\xff", b"&", b"=", b";", b"[", b"]", b"+", b"#", b"%00", b"\xe4\xb8", b"\x00", b"\r", b"\n", b"\x7f", b" "]
 
 
 def path_variants(tier):
@@ -407,11 +410,52 @@ def special_bodies():
 
 
 # ---------------------------------------------------------------------------------------------------------------
+def vanished(r):
+    """One application object; a path is requested, then the file system changes under it (file removed, replaced by a
+    directory, its directory removed, directory replaced by a file, permissions withdrawn), then the same path is requested again:
+    whatever the answer is now, it is a response or a 4xx, never an OSError."""
+    from baize import wsgi as W, asgi as A
+
+    def rm(p):
+        (shutil.rmtree if os.path.isdir(p) else os.unlink)(p)
+
+    def to_dir(p):
+        rm(p)
+        os.makedirs(p)
+
+    def to_file(p):
+        rm(p)
+        open(p, "wb").write(b"now a file")
+    changes = {"file removed": ("file.txt", rm), "file becomes a directory": ("file.txt", to_dir), "directory removed": ("sub", rm), "directory becomes a file": ("sub", to_file),
+               "index page removed": ("sub/index.html", rm), "parent removed": ("files", rm)}
+    paths = {"file.txt": ["/file.txt"], "sub": ["/sub", "/sub/", "/sub/index.html", "/sub/index"], "sub/index.html": ["/sub/", "/sub/index.html", "/sub/index"], "files": ["/files/é.txt", "/files/", "/files"]}
+    for cname, (target, change) in changes.items():
+        for iface, m in (("wsgi", W), ("asgi", A)):
+            for kind in ("Files", "Pages"):
+                for path in paths[target]:
+                    for hs in ([], [("Range", "bytes=0-1")], [("If-None-Match", "*")]):
+                        t = Tree()
+                        try:
+                            app = getattr(m, kind)(t.dir)
+                            areq = SV.AReq(path=path, headers=[("Host", "example.com")] + hs)
+                            call_app(iface, app, areq)
+                            change(os.path.join(t.dir, target))
+                            res = call_app(iface, app, areq)
+                            r.count("evaluations")
+                            r.count("distinct_nontrivial")
+                            if res.exc is not None and not allowed(res.exc):
+                                report(r, kind, iface, res.exc, {"kind": "vanished", "change": cname, "path": path, "headers": hs}, f"path {path!r} {hs} requested again after: {cname}")
+                        finally:
+                            t.close()
+    r.sample({"vanished": list(changes), "apps": ["Files", "Pages"]})
+
+
 def shards(tier, seed):
     out = [("header", name, bi) for name, bases in BASES.items() for bi in range(len(bases))]
     out += [("noise", name) for name in BASES]
     out += [("paths", k, 4) for k in range(4)]
     out.append(("queries",))
+    out.append(("vanished",))
     out += [("body", which, k, 4) for which in ("json", "form", "multipart") for k in range(4)]
     out.append(("special",))
     out += [("filehdr", name) for name in ("Range", "If-Range", "If-None-Match", "If-Modified-Since")]
@@ -491,14 +535,24 @@ def run_shard(desc, tier):
             r.sample({"paths": len(list(path_variants(tier))), "apps": list(apps["wsgi"])})
         finally:
             t.close()
+    elif kind == "vanished":
+        vanished(r)
     elif kind == "queries":
-        for q in query_variants():
-            areq = SV.AReq(path="/p", query=q)
-            for iface, req in make_requests(areq).items():
-                r.count("evaluations")
-                r.count("distinct_nontrivial")
-                for entry, exc in header_accessors(req):
-                    report(r, entry, iface, exc, {"kind": "query", "query": q}, f"query {q!r:.60}")
+        t = Tree()
+        try:
+            apps = build_apps(t.dir)
+            for q in query_variants():
+                areq = SV.AReq(path="/p", query=q)
+                for iface, req in make_requests(areq).items():
+                    r.count("evaluations")
+                    r.count("distinct_nontrivial")
+                    for entry, exc in header_accessors(req):
+                        report(r, entry, iface, exc, {"kind": "query", "query": q}, f"query {q!r:.60}")
+                # the query travels on into redirects and not-found pages of the applications
+                for path in ("/sub", "/file.txt", "/files/sub", "/nofile"):
+                    probe_dispatch(r, apps, SV.AReq(path=path, query=q, headers=[("Host", "example.com")]), {"kind": "query-dispatch", "query": q, "path": path}, f"query {q!r:.60} on path {path!r}")
+        finally:
+            t.close()
         r.sample({"query": b"a=1&b=%E4%B8%AD&c=+x%ff"})
     elif kind == "body":
         _, which, k, n = desc
@@ -581,6 +635,16 @@ def replay(w):
         if len(w["body"]) > 3:
             b = w["body"]
             probe_body(r, w["ctype"], b, w["accessor"], chunks=[b[:1], b[1:len(b) // 2], b"", b[len(b) // 2:]])
+    elif k == "vanished":
+        vanished(r)
+    elif k == "body-under-header":
+        probe_body_under_header(r, w["name"], w["value"])
+    elif k == "query-dispatch":
+        t = Tree()
+        try:
+            probe_dispatch(r, build_apps(t.dir), SV.AReq(path=w["path"], query=w["query"], headers=[("Host", "example.com")]), w, "query")
+        finally:
+            t.close()
     elif k == "query":
         for iface, req in make_requests(SV.AReq(path="/p", query=w["query"])).items():
             for entry, exc in header_accessors(req):
